@@ -564,6 +564,11 @@ func (c15) Gen(rng *rand.Rand, tier string, idx int) Case {
 		c.Cfg = append(c.Cfg, []string{"tsscale", []string{"s", "ms", "us", "ns"}[rng.Intn(4)]})
 		stat("epoch-timestamps")
 	}
+	if rng.Intn(3) == 0 {
+		// the partition cap set to exactly the number of partitions of the case: reached, never exceeded, so no partition may be evicted
+		c.Cfg = append(c.Cfg, []string{"pcap", "1"})
+		stat("partition-cap-equals-partitions")
+	}
 	c.Cfg = append(c.Cfg, []string{"mode", mode}, []string{"rows", rowsTok}, append([]string{"skip"}, skip...),
 		[]string{"within", strconv.Itoa(within)}, []string{"cls", "t"}, append([]string{"pat"}, tree.tokens()...))
 	if !sqlMode && rng.Intn(10) == 0 {
@@ -943,6 +948,9 @@ func (c15) Exec(c Case) [][][]string {
 			if cf.maxRows > 0 {
 				e.SetMaxRunRows(cf.maxRows)
 			}
+			if n := c15pcap(c); n > 0 {
+				e.SetMaxPartitions(n)
+			}
 			eng = e
 			out = append(out, [][]string{{"ok"}})
 		case "row":
@@ -985,7 +993,11 @@ func c15execSQL(cf c15conf, c Case) [][][]string {
 	for _, op := range c.Ops {
 		switch op[0] {
 		case "new":
-			s = streamsql.New(streamsql.WithDiscardLog())
+			if n := c15pcap(c); n > 0 {
+				s = streamsql.New(streamsql.WithDiscardLog(), streamsql.WithAnalyticMaxPartitions(n))
+			} else {
+				s = streamsql.New(streamsql.WithDiscardLog())
+			}
 			if err := s.Execute(cf.sqlText()); err != nil {
 				s.Stop()
 				s = nil
@@ -1041,4 +1053,26 @@ func c15execSQL(cf c15conf, c Case) [][][]string {
 		s.Stop()
 	}
 	return out
+}
+
+// c15pcap: with cfg `pcap 1`, the number of distinct partition keys among the case's rows (0 = cap left at its default)
+func c15pcap(c Case) int {
+	on := false
+	for _, l := range c.Cfg {
+		if len(l) == 2 && l[0] == "pcap" && l[1] == "1" {
+			on = true
+		}
+	}
+	if !on {
+		return 0
+	}
+	seen := map[string]bool{}
+	for _, op := range c.Ops {
+		if op[0] == "row" {
+			if p, ok := c15row(op)["p"].(string); ok {
+				seen[p] = true
+			}
+		}
+	}
+	return len(seen)
 }
